@@ -1090,9 +1090,7 @@ class Rec(Abstract):
     def getattr(self, I, name, node=None):
         if name in self.f:
             return self.f[name]
-        if hasattr(self, "x_" + name):
-            return AbstractMethod(self, name)
-        I.raise_builtin("AttributeError", node)
+        raise OutsideSubset("attribute %s of external %s value is not modelled" % (name, self.kind), node)
 
     def binop(self, I, op, other, reflected):
         if isinstance(op, ast.Add) and isinstance(other, Rec) and {self.kind, other.kind} == {"datetime.min", "timedelta"}:
